@@ -185,13 +185,20 @@ Apply(op, p, A) ==
       [] op = "interp" -> NInterp(A[1], A[2], A[3])
       [] OTHER -> Assert(FALSE, <<"FuncBuilder: unknown op", op>>)
 
+\* a call is only made when the nodes it leaves unused can still be consumed by the calls that remain (no dead ends)
 Push(op, d, p) ==
+    /\ Cardinality(Unused \ {d[i] : i \in 1..Len(d)}) <= 2 * (CurFam.maxops - NOps - 1)
     /\ nodes' = Append(nodes, [op |-> op, d |-> d, p |-> p, nu |-> TRUE,
                                val |-> [pt \in 1..NP |-> Apply(op, p, [i \in 1..Len(d) |-> Nd(d[i]).val[pt]])]])
     /\ UNCHANGED <<fam, smp>>
 
-AddLeaf == /\ NLeaves < CurFam.maxleaves /\ Cardinality(Unused) <= CurFam.maxunused
+\* position of a leaf in the pools (symmetry reduction: leaves that are pushed one after the other without a call in between
+\* are pushed in pool order -- the calls take their operands in every order anyway)
+LeafPos(name) == IF name \in GlobalNames THEN CHOOSE i \in 1..Len(GlobalLeaves) : GlobalLeaves[i].name = name
+                 ELSE 100 + CHOOSE i \in 1..Len(Samples[smp].leaves) : Samples[smp].leaves[i].name = name
+AddLeaf == /\ NLeaves < CurFam.maxleaves /\ Cardinality(Unused) <= CurFam.maxunused /\ NOps < CurFam.maxops
            /\ \E name \in CurFam.leaves \cap (GlobalNames \cup PtNames) :
+                 /\ (L >= 1 /\ IsLeafNode(L) /\ ~Used(L)) => LeafPos(name) >= LeafPos(Nd(L).p)
                  /\ nodes' = Append(nodes, [op |-> "leaf", d |-> <<>>, p |-> name, nu |-> LeafNu(name), val |-> LeafVal(name)])
                  /\ UNCHANGED <<fam, smp>>
 
